@@ -11,7 +11,7 @@ ASSUMPTIONS = ['token model: a predicate name sticks to its "(" (documented), do
 
 NOISE = [' ', '  ', '\n', '\t', '# c\n', '/* c */', '/* ; ( " */', ' /* :- | */ ']
 EVIL = [';', ',', ':-', '|', '(', ')', ']', '[', '{', '}', '#', '/*', '*/', '/* x */', ' in ', 'distinct', 'else', ' is ', '==', '~', ':=', '-->', 'import a.B', '# c', 'T(x) :- A(x);', "it's", '`', '..', '?', '=>',
-        'combine', 'then', '->', '&&', '||', '@Ground(T)', '$', '%s', '{0}', ' ; ; ']
+        'combine', 'then', '->', '&&', '||', '@Ground(T)', '$', '%s', '{0}', ' ; ; ', '\\', 'a\\', '\\(', '\\)', 'C:\\d\\', '\\n']
 
 KEYWORDS = [' else if ', ' is not ', ' in ', ' is ', 'combine ', 'else if', 'import ', ' as ', ' then ', ' else ', 'if ']
 
@@ -186,7 +186,7 @@ def work(task):
       for ev in EVIL:
         forms = []
         if '"' not in ev and '\n' not in ev: forms.append('"%s"' % ev)
-        if "'" not in ev: forms.append("'%s'" % ev)
+        if "'" not in ev and '\\' not in ev: forms.append("'%s'" % ev)     # the single-quoted form interprets backslash escapes
         if '"""' not in ev: forms.append('"""%s"""' % ev)
         for f in forms:
           v = host.replace('"%s"', f)
